@@ -707,3 +707,203 @@ impl Check for C15 {
         Box::pin(exec_c15(script))
     }
 }
+
+// ---------------------------------------------------------------------------
+// C13, cluster scenario: heartbeat expiry "on the node responsible and then everywhere", take-over after a node failure
+// ---------------------------------------------------------------------------
+#[derive(Serialize, Deserialize, Clone, Debug)]
+pub struct TInst {
+    pub svc: u8,
+    pub ip: u8,
+    pub via: u8,
+    pub reg_at_ms: u64,
+    /// the client stops heart-beating this long after the registration (None: beats until the end)
+    pub silent_after_ms: Option<u64>,
+}
+
+pub async fn exec_c13_cluster(script: Value) -> ExecResult {
+    let id = "C13";
+    let seed = script["seed"].as_u64().unwrap_or(1);
+    let cfg: NCfg = serde_json::from_value(script["cfg"].clone()).unwrap_or_default();
+    let insts: Vec<TInst> = serde_json::from_value(script["insts"].clone()).unwrap_or_default();
+    let kill: Option<(u64, u64)> = script["kill"].as_object().map(|k| (k["node"].as_u64().unwrap_or(1), k["at_ms"].as_u64().unwrap_or(0)));
+    let total_ms = script["total_ms"].as_u64().unwrap_or(90_000);
+    tokio::fs::set_cfg(disk_cfg(&cfg));
+    tokio::fs::with_disk(|d| {
+        d.journal_on = false;
+        d.log_ops = false;
+    });
+    net_reset(seed, cfg.net.clone());
+    let root = run_root(seed);
+    let nn = cfg.nodes.max(2);
+    let h_ms = cfg.node.naming_health_timeout + 3000;
+    let r_ms = cfg.node.naming_instance_timeout + 3000;
+    let mut findings: Vec<Violation> = vec![];
+    let mut observations = 0u64;
+    let r: VResult<()> = async {
+        cluster_up(&root, &cfg, id).await?;
+        advance(8_000).await;
+        let t0 = sim::now_us() / 1000;
+        let all_ids: Vec<u64> = (1..=nn).collect();
+        let mut rng = Rng::derive(seed, "C13c.exec", 0);
+        let mut killed: Option<(u64, u64)> = None; // (node, at absolute ms)
+        // per instance: registered?, last successful registration / beat (absolute ms), gone from the model
+        let mut reg: Vec<Option<u64>> = vec![None; insts.len()];
+        let mut last_ok: Vec<u64> = vec![0; insts.len()];
+        let mut last_beat_try: Vec<u64> = vec![0; insts.len()];
+        let mut done: Vec<bool> = vec![false; insts.len()];
+        // per address: (first accepted registration, last accepted heartbeat, start of the current gap-free
+        // heartbeat series); a revived instance becomes healthy on the other nodes only with the next 15 s beat batch
+        let mut addr: BTreeMap<(u8, u8), (u64, u64, u64)> = BTreeMap::new();
+        let name_of = |t: &TInst| format!("hb-{}", t.svc % 3);
+        let ip_of = |t: &TInst| format!("10.6.0.{}", t.ip % 6 + 1);
+        let mut t = 0u64;
+        while t < total_ms {
+            let now = sim::now_us() / 1000;
+            let live: Vec<u64> = all_ids.iter().filter(|x| killed.map(|k| k.0 != **x).unwrap_or(true)).cloned().collect();
+            if let (Some((kn, at)), None) = (kill, killed) {
+                if t >= at {
+                    kill_node(kn).await;
+                    killed = Some((kn, now));
+                    sim::count("fault.kill", 1);
+                    continue;
+                }
+            }
+            for (j, ti) in insts.iter().enumerate() {
+                if reg[j].is_none() && t >= ti.reg_at_ms {
+                    let via = live[(ti.via as usize) % live.len()];
+                    let (st, _) = within(8_000, http_register(&node(via).unwrap(), &name_of(ti), &ip_of(ti))).await.unwrap_or((0, String::new()));
+                    if st == 200 {
+                        reg[j] = Some(now);
+                        last_ok[j] = now;
+                        last_beat_try[j] = now;
+                        let e = addr.entry((ti.svc % 3, ti.ip % 6)).or_insert((now, now, now));
+                        if now.saturating_sub(e.1) + 1500 > h_ms {
+                            e.2 = now;
+                        }
+                        e.1 = now;
+                    } else {
+                        // the registration was refused (e.g. routed to a node that just died): the client does not exist
+                        reg[j] = Some(0);
+                        done[j] = true;
+                    }
+                } else if let Some(r0) = reg[j] {
+                    let beating = !done[j] && ti.silent_after_ms.map(|s| now < r0 + s).unwrap_or(true);
+                    if beating && now >= last_beat_try[j] + 3_000 {
+                        last_beat_try[j] = now;
+                        // an SDK retries a failed beat on another server
+                        for attempt in 0..2 {
+                            let via = live[(rng.below(live.len() as u64) as usize + attempt) % live.len()];
+                            let name = name_of(ti);
+                            let beat = json!({"ip": ip_of(ti), "port": 8080, "serviceName": format!("{}@@{}", GROUP, name), "cluster": "DEFAULT", "weight": 1.0, "metadata": {}});
+                            let q = format!("serviceName={}&namespaceId={}&groupName={}&ip={}&port=8080&beat={}", urlencode(&format!("{}@@{}", GROUP, name)), NS, GROUP, ip_of(ti), urlencode(&beat.to_string()));
+                            if let Some((200, _)) = within(5_000, http_call(&node(via).unwrap(), "PUT", &format!("/nacos/v1/ns/instance/beat?{}", q))).await {
+                                let tn = sim::now_us() / 1000;
+                                last_ok[j] = tn;
+                                let e = addr.entry((ti.svc % 3, ti.ip % 6)).or_insert((tn, tn, tn));
+                                if tn.saturating_sub(e.1) + 1500 > h_ms {
+                                    e.2 = tn;
+                                }
+                                e.1 = tn;
+                                break;
+                            }
+                        }
+                    }
+                }
+            }
+            advance(1_000).await;
+            t = sim::now_us() / 1000 - t0;
+            observations += 1;
+            let now = sim::now_us() / 1000;
+            let live: Vec<u64> = all_ids.iter().filter(|x| killed.map(|k| k.0 != **x).unwrap_or(true)).cloned().collect();
+            // after a node failure its services are taken over once the 15 s liveness timer has fired
+            let in_kill_window = killed.map(|k| now < k.1 + 25_000).unwrap_or(false);
+            for (j, ti) in insts.iter().enumerate() {
+                let r0 = match reg[j] {
+                    Some(r0) if r0 > 0 => r0,
+                    _ => continue,
+                };
+                if done[j] {
+                    continue;
+                }
+                // two scripted clients may share an address: the younger heartbeat counts
+                let newest = insts.iter().enumerate().filter(|(k, o)| o.svc % 3 == ti.svc % 3 && o.ip % 6 == ti.ip % 6 && reg[*k].map(|x| x > 0).unwrap_or(false)).map(|(k, _)| last_ok[k]).max().unwrap_or(last_ok[j]);
+                let base = killed.map(|k| newest.max(k.1 + 20_000)).unwrap_or(newest);
+                let age = now.saturating_sub(newest);
+                let silent_for = now.saturating_sub(base);
+                let mut states = vec![];
+                for x in &live {
+                    let l = instances_on(&node(*x).unwrap(), &name_of(ti)).await;
+                    states.push((*x, l.iter().find(|i| i.ip.as_str() == ip_of(ti)).map(|i| (i.healthy, i.from_cluster))));
+                }
+                let _ = r0;
+                let (first_reg, _, cont_since) = addr.get(&(ti.svc % 3, ti.ip % 6)).cloned().unwrap_or((newest, newest, newest));
+                let settled = if cont_since == first_reg { now > cont_since + 2_500 } else { now > cont_since + 20_000 };
+                if age + 1500 < h_ms && !in_kill_window && settled {
+                    // heartbeats keep arriving: present and healthy everywhere
+                    for (x, st) in &states {
+                        if killed.is_some() && !matches!(st, Some((true, _))) {
+                            // recorded defect (supervision hand-over): after a node failure moved the service to another
+                            // survivor, the previous owner keeps its time-out entries and expires the instance although
+                            // its heartbeats arrive at the new owner
+                            let v = Violation::new("C13.beating_instance_expired_after_range_change", format!("cluster of {}: {} of {} is {} by node {} {} ms after its last accepted heartbeat (health time-out {} ms, instance time-out {} ms); node {} was killed {} ms ago and the ownership ranges of the survivors changed", nn, ip_of(ti), name_of(ti), if st.is_some() { "served as unhealthy" } else { "not served" }, x, age, h_ms, r_ms, killed.unwrap().0, now - killed.unwrap().1));
+                            if !findings.iter().any(|f| f.clause == v.clause) {
+                                findings.push(v);
+                            }
+                            continue;
+                        }
+                        match st {
+                            Some((true, _)) => {}
+                            Some((false, _)) => vfail!("C13.unhealthy_while_beating", "cluster of {}: {} of {} is served as unhealthy by node {} {} ms after its last accepted heartbeat (health time-out {} ms){}", nn, ip_of(ti), name_of(ti), x, age, h_ms, killed.map(|k| format!("; node {} was killed {} ms ago", k.0, now - k.1)).unwrap_or_default()),
+                            None => vfail!("C13.removed_while_beating", "cluster of {}: {} of {} is not served by node {} {} ms after its last accepted heartbeat (instance time-out {} ms){}", nn, ip_of(ti), name_of(ti), x, age, r_ms, killed.map(|k| format!("; node {} was killed {} ms ago", k.0, now - k.1)).unwrap_or_default()),
+                        }
+                    }
+                }
+                if silent_for > h_ms + 8_000 {
+                    for (x, st) in &states {
+                        if let Some((true, fc)) = st {
+                            let v = Violation::new("C13.cluster_silent_still_healthy", format!("cluster of {}: {} of {} is still served as healthy by node {} (from_cluster={}) {} ms after its last heartbeat (health time-out {} ms){}", nn, ip_of(ti), name_of(ti), x, fc, age, h_ms, killed.map(|k| format!("; node {} was killed {} ms ago", k.0, now - k.1)).unwrap_or_default()));
+                            if !findings.iter().any(|f| f.clause == v.clause) {
+                                findings.push(v);
+                            }
+                        }
+                    }
+                }
+                if silent_for > r_ms + 10_000 {
+                    let holders: Vec<String> = states.iter().filter_map(|(x, st)| st.map(|(h, fc)| format!("node {} (healthy={}, from_cluster={})", x, h, fc))).collect();
+                    if !holders.is_empty() {
+                        let v = Violation::new("C13.cluster_silent_not_removed", format!("cluster of {}: {} of {} is still served {} ms after its last heartbeat by {} (health time-out {} ms, instance time-out {} ms){}", nn, ip_of(ti), name_of(ti), age, holders.join(", "), h_ms, r_ms, killed.map(|k| format!("; node {} was killed {} ms ago", k.0, now - k.1)).unwrap_or_default()));
+                        if !findings.iter().any(|f| f.clause == v.clause) {
+                            findings.push(v);
+                        }
+                    } else {
+                        sim::count("probe.cluster_silent_expired_everywhere", 1);
+                    }
+                    done[j] = true;
+                }
+            }
+        }
+        Ok(())
+    }
+    .await;
+    let info = RunInfo { digest: digest_str(&format!("{:?}", findings.iter().map(|f| f.clause.clone()).collect::<Vec<_>>())), nontrivial: observations >= 5, info: json!({"observations": observations, "cluster": nn}), findings };
+    for n in live_nodes() {
+        kill_node(n.id).await;
+    }
+    ExecResult { violation: r.err(), info }
+}
+
+pub fn gen_c13_cluster(seed: u64) -> Value {
+    let mut rng = Rng::derive(seed, "C13c.gen", 0);
+    let mut cfg = NCfg::default();
+    cfg.nodes = rng.range(2, 3);
+    cfg.node.snapshot_log_size = 10_000;
+    cfg.node.naming_health_timeout = rng.range(3, 8) * 1000;
+    cfg.node.naming_instance_timeout = cfg.node.naming_health_timeout + rng.range(5, 12) * 1000;
+    let k = rng.range(2, 7);
+    let insts: Vec<TInst> = (0..k)
+        .map(|_| TInst { svc: rng.below(3) as u8, ip: rng.below(6) as u8, via: rng.below(3) as u8, reg_at_ms: rng.range(0, 30_000), silent_after_ms: if rng.chance(0.6) { Some(rng.range(0, 40_000)) } else { None } })
+        .collect();
+    let kill = if cfg.nodes == 3 && rng.chance(0.4) { json!({"node": rng.range(1, 3), "at_ms": rng.range(2_000, 40_000)}) } else { Value::Null };
+    json!({"check": "C13", "seed": seed, "cluster": true, "cfg": cfg, "insts": insts, "kill": kill, "total_ms": 110_000, "steps": []})
+}
